@@ -320,7 +320,7 @@ def run_property(pid, tier="quick", seed=0, extra=None):
     ridx = 0
     seen_fn = set()
     for o in refuted:
-        if "function" not in o or o.get("external"):
+        if "function" not in o or o.get("external") or o["function"] not in REGISTRY:
             continue
         spec = REGISTRY[o["function"]]
         fk = (o["function"], json.dumps(o.get("variant"), sort_keys=True))
@@ -346,6 +346,9 @@ def run_property(pid, tier="quick", seed=0, extra=None):
         ridx += 1
         path = write_replay(pid, ridx, spec, o.get("variant"), o, case if reproduced else None, outcome if reproduced else None, failed, reproduced)
         violations.append((o, path, reproduced, case, failed))
+    if ext:
+        for v in ext.get("violations", []):
+            violations.append((v["obligation"], v["path"], v["reproduced"], v.get("case"), v.get("failed", [])))
     # bounded stand-in violations that no obligation reported (engine miss or function out of reach)
     for b in bres:
         if b.get("error"):
@@ -369,17 +372,17 @@ def run_property(pid, tier="quick", seed=0, extra=None):
     # one report per function: a reproduced witness stands for the function's other refuted obligations
     byfn = {}
     for v in violations:
-        k = (v[0].get("function"), json.dumps(v[0].get("variant"), sort_keys=True))
+        k = (v[0].get("function") or v[0].get("name"), json.dumps(v[0].get("variant"), sort_keys=True))
         if k not in byfn or (v[2] and not byfn[k][2]):
             byfn[k] = v
     violations = list(byfn.values())
     for (o, path, reproduced, case, failed) in violations:
-        ident = "%s %s" % (o["name"], json.dumps(case["params"]) if case else "")
+        ident = "%s %s" % (o["name"], json.dumps(case["params"]) if case and "params" in case else "")
         hit = None
         for f in findings:
             parts = f.split(None, 2)
             if parts and parts[0] == "property=%s" % pid and len(parts) >= 2 and parts[1] in o["name"]:
-                if len(parts) < 3 or (case and parts[2] in json.dumps(case["params"])):
+                if len(parts) < 3 or (case and parts[2] in json.dumps(case.get("params", case))):
                     hit = f
                     break
         if hit:
